@@ -346,6 +346,21 @@ func sigShapes(r *common.Rand, emitp func(*interpgen.Program), n int) {
 			lock = append(lock, interpgen.Push(sig)...)
 			lock = append(lock, 0x75)
 		}
+		// a top-level OP_RETURN and what the parser makes of the bytes after it (truncated pushes become
+		// the data-less "Unformatted Data" opcode), which the signature opcodes then unparse / filter
+		tail := func() []byte {
+			t := []byte{0x6a}
+			for k := r.Intn(3); k > 0; k-- {
+				t = append(t, []byte{0x01, 0x02, 0x4b, 0x4c, 0x4d, 0x4e, 0x00, 0x51, 0xab, byte(r.U64())}[r.Intn(10)])
+			}
+			return t
+		}
+		if r.Chance(35) {
+			lock = append(lock, tail()...)
+		}
+		if r.Chance(10) {
+			unlock = append(unlock, tail()...)
+		}
 		p := &interpgen.Program{Unlock: unlock, Lock: lock, HasTx: true, HasPrev: true, TxVersion: 1, InSeq: 0xffffffff, Kind: "sig-shape"}
 		if r.Chance(55) {
 			p.Flags |= interpgen.FGenesis
